@@ -75,6 +75,9 @@ class DefaultDeploymentManager(DeploymentManager):
                         await connector.deploy(deployment_config.external)
                     except Exception:
                         self.deployments_map.pop(deployment_name)
+                        # A deployment that failed no longer keeps its wrapped deployments alive
+                        for deps in self.dependency_graph.values():
+                            deps.discard(deployment_name)
                         self.events_map[deployment_name].set()
                         raise
                     if logger.isEnabledFor(logging.INFO):
